@@ -143,7 +143,10 @@ def real_clients(prop, tier, seed, verdict, cov):
 
 def model_check(prop, tier, seed, verdict, cov):
     cfg = TIERS[tier]
-    for name in PROPS[prop]["mc"]:
+    names = list(PROPS[prop]["mc"])
+    if tier == "thorough" and prop == "C02":
+        names.append("MC_SerialWrap")       # the serial counter wraps and skips a long-pending call
+    for name in names:
         cfgfile = f"{name}.cfg" if tier == "quick" else (f"{name}_thorough.cfg" if os.path.exists(os.path.join(vlib.SPEC, f"{name}_thorough.cfg")) else f"{name}.cfg")
         module = "MC_Broker.tla"
         if not os.path.exists(os.path.join(vlib.SPEC, module)) or not os.path.exists(os.path.join(vlib.SPEC, cfgfile)):
